@@ -539,6 +539,21 @@ def compile_basic_annotation(compiler, expr, root, target, ann):
     return compile_assign(compiler, ann, target, None)
 
 
+def _mentions_name(compiler, result, target):
+    """Does the code of `result` refer to the variable `target`? If so,
+    its temporary variables can't be renamed to `target`: the value would
+    be stored in `target` while the rest of the code still expects to
+    read the old value."""
+    # Resolve `let`-bound names the same way `Result.rename` will.
+    name = compiler.scope.access(
+        asty.Name(target, id=mangle(target), ctx=ast.Load())).id
+    return any(
+        isinstance(node, ast.Name) and node.id == name
+        for tree in (*result.stmts, *([result.expr] if result.expr else []))
+        for node in ast.walk(tree)
+    )
+
+
 def compile_assign(
     compiler, ann, target, value, *, is_assignment_expr=False, chained=False, let_scope=None
 ):
@@ -554,7 +569,11 @@ def compile_assign(
         if let_scope:
             target = let_scope.add(target)
 
-    if result.temp_variables and isinstance(target, Symbol):
+    if (
+        result.temp_variables
+        and isinstance(target, Symbol)
+        and not _mentions_name(compiler, result, compiler._nonconst(target))
+    ):
         result.rename(compiler, compiler._nonconst(target))
         if not is_assignment_expr:
             # Throw away .expr to ensure that (setv ...) returns None.
